@@ -448,3 +448,6 @@ def decide_inconclusive(obs, results, cases):
     if obs.get('renews', 0) == 0 or obs.get('items_delivered', 0) == 0 or obs.get('stop_raised', 0) == 0:
         return 'no renew / no delivered item / no stop request was observed'
     return None
+
+
+RULE = RULE + '; overlap rounds (consumers start the next round while renew runs); queue.SimpleQueue and process queues between threads; SimpleQueue / stop event across processes; early-put cases (known finding)'
